@@ -28,6 +28,7 @@ import (
 	"strings"
 	"sync"
 
+	"github.com/AliceO2Group/Control/common/verifhook"
 	"github.com/AliceO2Group/Control/core/task"
 	"github.com/sirupsen/logrus"
 )
@@ -57,6 +58,7 @@ func aggregateStatus(roles []Role) (status task.Status) {
 				}).
 					Trace("aggregating statuses")
 
+				verifhook.Point("merge.computed", "kind", "status", "v", int(status))
 				return
 			}
 			status = status.X(c.GetStatus())
@@ -68,6 +70,7 @@ func aggregateStatus(roles []Role) (status task.Status) {
 	}).
 		Trace("aggregating statuses")
 
+	verifhook.Point("merge.computed", "kind", "status", "v", int(status))
 	return
 }
 
@@ -87,6 +90,7 @@ func (t *SafeStatus) merge(s task.Status, r Role) {
 
 	switch {
 	case s == task.UNDEFINED: // if we get a new UNDEFINED status, the whole role is UNDEFINED
+		verifhook.Point("merge.computed", "kind", "status", "v", int(task.UNDEFINED))
 		t.status = task.UNDEFINED
 		return
 	default:
